@@ -113,7 +113,7 @@ def make_tensor(case):
         dq = [shape[a] for a in ql]
         dr = [shape[a] for a in rl]
         m, n = prod(dq), prod(dr)
-        r = max(1, min(m, n) // 2)
+        r = max(1, min(case.get("rank", min(m, n) // 2), min(m, n)))
         if kind == "degenerate":
             # singular values in exactly degenerate groups (3,3,2,2,1,1,...): a bond cap has to cut through a group
             k = min(m, n)
@@ -321,7 +321,7 @@ class C11(Prop):
             par["total_tol"] = tot if isinstance(tot, str) else tot * unit
         return par
 
-    def _mk(self, rng, shape, ql, rl, content=None, layout=None, sexp=None, bias=None):
+    def _mk(self, rng, shape, ql, rl, content=None, layout=None, sexp=None, bias=None, rank=None):
         n = len(shape)
         if content is None:
             content = rng.choice(self.CONTENTS)
@@ -335,6 +335,66 @@ class C11(Prop):
                 "lossless": self._lossless(rng, shape, ql, rl, sexp, bias)}
         if sexp is not None:
             case["sexp"] = sexp
+        if rank is not None:
+            case["rank"] = rank
+        return case
+
+    # -- LARGE members: tensors with 512..4608 (thorough: ..8192) entries, orders 2..6, dimensions up to 1536
+    LARGE_FALLBACK = {2: [256, 9], 3: [16, 16, 9], 4: [16, 16, 3, 3], 5: [4, 4, 16, 3, 3], 6: [4, 4, 4, 4, 3, 3]}
+    DEFICIENT = ["lowrank", "lowrank", "lowrank", "padded", "zeroslice", "sparse", "int", "ones", "degenerate"]
+
+    def _large_shape(self, rng, n, lo, hi):
+        for _ in range(200):
+            target = math.exp(rng.uniform(math.log(lo), math.log(hi)))
+            if n == 2:
+                sh = [rng.choice([2, 3, 4, 5, 6, 8, 9, 12, 16, 24, 32, 48, 64])]
+            else:
+                pool = {3: [1, 2, 3, 4, 6, 8, 12, 16, 24], 4: [1, 2, 3, 4, 5, 6, 8, 9, 12], 5: [1, 2, 2, 3, 4, 5, 6, 8],
+                        6: [1, 2, 2, 3, 3, 4, 5, 6]}[n]
+                sh = [rng.choice(pool) for _ in range(n - 1)]
+            last = max(1, round(target / prod(sh)))
+            sh.insert(rng.randrange(n), last)
+            if lo <= prod(sh) <= hi and max(sh) <= (1536 if n == 2 else 96):
+                return sh
+        sh = list(self.LARGE_FALLBACK[n])
+        rng.shuffle(sh)
+        return sh
+
+    def _large_case(self, rng, forced, hi):
+        """One large member.  forced: tensor with >= 2048 entries AND strongly rectangular matricisation (aspect ratio >= 16, short
+        side >= 2) AND a rank-deficient entry kind (the truncation-off run, the lossless run and the truncating run are made for every
+        case anyway); otherwise the three attributes are drawn independently."""
+        n = rng.choice([2, 3, 4, 4, 5, 5, 6, 6])
+        big = forced or rng.random() < 0.7
+        want_rect = forced or rng.random() < 0.5
+        sh = self._large_shape(rng, n, 2048 if big else 512, hi if big else 2047)
+        best = None
+        for _ in range(60):
+            legs = list(range(n))
+            if rng.random() >= 0.25:
+                rng.shuffle(legs)
+            k = rng.randrange(n + 1)
+            ql, rl = legs[:k], legs[k:]
+            m, nn = prod([sh[a] for a in ql]), prod([sh[a] for a in rl])
+            if max(m, nn) > 1536:
+                continue              # (a FULL-mode factor would have > 1536**2 entries: too slow for a check)
+            rect = min(m, nn) >= 2 and max(m, nn) >= 16 * min(m, nn)
+            if best is None:
+                best = (ql, rl)
+            if rect == want_rect:
+                best = (ql, rl)
+                break
+        if best is None:
+            # every sampled bipartition has a side longer than 1536: split a middle cut of the natural order
+            k = min(range(n + 1), key=lambda j: abs(math.log(prod(sh[:j])) - math.log(prod(sh[j:]))))
+            best = (list(range(k)), list(range(k, n)))
+        ql, rl = best
+        kk = min(prod([sh[a] for a in ql]), prod([sh[a] for a in rl]))
+        content = rng.choice(self.DEFICIENT) if forced or rng.random() < 0.5 else None
+        rank = rng.randint(1, max(1, kk - 1)) if rng.random() < 0.7 else None
+        case = self._mk(rng, sh, ql, rl, content=content, rank=rank,
+                        bias=rng.choice([None, None, "zero", "sum"]))
+        case["large"] = True
         return case
 
     @staticmethod
@@ -410,6 +470,11 @@ class C11(Prop):
             sexp = rng.choice([None, None, rng.randint(-12, 12), rng.randint(-100, 100)])
             cases.append(self._mk(rng, sh, ql, rl, content=rng.choice(["zeroslice", "zeroslice", "sparse", "padded", "padded", "int", "ones"]),
                                   sexp=sexp, bias="zero"))
+        # LARGE members (size gates): tensors with 512..4608 entries (thorough: up to 8192), every third one with the combination
+        # >= 2048 entries + strongly rectangular matricisation + rank-deficient entries
+        nlarge = ctx.scale(9, 150) * budget_scale
+        for i in range(nlarge):
+            cases.append(self._large_case(rng, forced=(i % 3 == 0), hi=8192 if (th and i % 5 == 4) else 4608))
         # malformed leg lists: both sides must reject
         for _ in range(ctx.scale(20, 120) * budget_scale):
             n = rng.choice([1, 2, 3, 4])
